@@ -188,7 +188,13 @@ type Option struct {
 	Data   []byte
 }
 
+// OptionType_Pad1 is the one-byte padding option: a type byte without length or data (RFC 8200, 4.2).
+const OptionType_Pad1 = 0
+
 func (o *Option) Len() uint16 {
+	if o.Type == OptionType_Pad1 {
+		return 1
+	}
 	return uint16(o.Length) + 2
 }
 
@@ -197,6 +203,9 @@ func (o *Option) MarshalBinary() (data []byte, err error) {
 	n := 0
 	data[n] = o.Type
 	n += 1
+	if o.Type == OptionType_Pad1 {
+		return data, nil
+	}
 	data[n] = o.Length
 	n += 1
 	copy(data[n:], o.Data)
@@ -204,6 +213,12 @@ func (o *Option) MarshalBinary() (data []byte, err error) {
 }
 
 func (o *Option) UnmarshalBinary(data []byte) error {
+	if len(data) >= 1 && data[0] == OptionType_Pad1 {
+		o.Type = OptionType_Pad1
+		o.Length = 0
+		o.Data = nil
+		return nil
+	}
 	if len(data) < 2 {
 		return errors.New("The []byte is too short to unmarshal a full Option message.")
 	}
